@@ -3,7 +3,9 @@
 
 mod engine_life;
 mod engine_model;
+mod engine_hist;
 mod engine_opts;
+mod lin;
 mod engine_views;
 mod exec;
 mod gen;
@@ -99,6 +101,8 @@ fn main() {
         "model" => engine_model::main(&args),
         "replay" => engine_model::replay_main(&args),
         "shrink" => engine_model::shrink_main(&args),
+        "hist" => engine_hist::main(&args),
+        "hist-replay" => engine_hist::replay_main(&args),
         "views" => engine_views::main(&args),
         "views-replay" => engine_views::replay_main(&args),
         "opts" => engine_opts::main(&args),
